@@ -166,7 +166,84 @@ def run():
                 'radius_helper_sq' in str(F2.inlined.get('radius_via_helper')), '%r vs %r' % (e1, e2)))
     e3 = ExprBuilder(F.one('radius_via_helper')).place(0, ())
     res.append(('P10 baseline helpers are not inlined', 'radius_helper_sq' in repr(e3), repr(e3)))
+    # P12 on compiled code: the radius fixture in normal form, against the stated formula and against a wrong one
+    import poly
+    rf, err = poly.try_rf(ExprBuilder(F.one('radius_inline')).place(0, ()),
+                          lambda pl: pl.fields[-1] if pl.root == ('param', 1) and pl.fields else None)
+    hgt, asp = poly.atom('height'), poly.atom('aspect')
+    hw, hh = hgt * asp * poly.const('1/2'), hgt * poly.const('1/2')
+    res.append(('P12 radius fixture equals sqrt(hw^2 + hh^2) in normal form', rf is not None and (rf * rf).same(hw * hw + hh * hh),
+                '%r %s' % (rf, err)))
+    res.append(('P12 radius fixture differs from sqrt(hw^2 + hw^2)', rf is not None and not (rf * rf).same(hw * hw + hw * hw), ''))
     res += unit_controls()
+    res += formula_controls()
+    return res
+
+
+def formula_controls():
+    """controls of the normal forms and of the flag-vector normalisation (no compiler needed)"""
+    import poly
+    import matnf
+    import inliner
+    from lib import E
+    res = []
+
+    def pl(name):
+        return E('place', root=('param', 1), fields=(name,))
+
+    def c(v):
+        return E('const', const={'ty': 'f64', 'v': v})
+
+    def b(op, x, y):
+        return E('bin', name=op, args=[x, y])
+    at = lambda p: p.fields[-1]
+    e1 = b('Add', b('Mul', b('Div', pl('a'), c('2.0')), pl('b')), pl('c'))
+    e2 = b('Add', pl('c'), b('Mul', c('0.5'), b('Mul', pl('b'), pl('a'))))
+    r1, r2 = poly.to_rf(e1, at), poly.to_rf(e2, at)
+    res.append(('P12 (a/2)*b + c == c + 0.5*(b*a)', r1.same(r2), '%r | %r' % (r1, r2)))
+    cosA = E('call', name='std::f64::cos', args=[pl('angle')])
+    sinA = E('call', name='std::f64::sin', args=[pl('angle')])
+    rot = poly.to_rf(b('Sub', b('Mul', pl('x'), cosA), b('Mul', pl('y'), sinA)), at)
+    rot_m = poly.to_rf(b('Add', b('Mul', pl('x'), cosA), b('Mul', pl('y'), sinA)), at)
+    res.append(('P12 x*cos - y*sin differs from x*cos + y*sin', not rot.same(rot_m), ''))
+    negA = E('un', name='Neg', args=[pl('angle')])
+    s_neg = poly.to_rf(E('call', name='std::f64::sin', args=[negA]), at)
+    c_neg = poly.to_rf(E('call', name='std::f64::cos', args=[negA]), at)
+    res.append(('P12 sin(-A) == -sin(A), cos(-A) == cos(A)', s_neg.same(-poly.to_rf(sinA, at)) and
+                c_neg.same(poly.to_rf(cosA, at)), '%r %r' % (s_neg, c_neg)))
+    rt = poly.to_rf(E('call', name='std::f32::sqrt', args=[b('Add', pl('p'), pl('q'))]), at)
+    res.append(('P12 sqrt(p+q)^2 == p+q', (rt * rt).same(poly.to_rf(b('Add', pl('q'), pl('p')), at)), repr(rt * rt)))
+    quot = poly.to_rf(b('Mul', b('Div', pl('w'), pl('h')), pl('h')), at)
+    res.append(('P12 (w/h)*h == w as rational functions', quot.same(poly.atom('w')), repr(quot)))
+    nonlin, why = poly.try_rf(E('phi', args=[pl('a'), pl('b')]), at)
+    res.append(('P12 a phi is not evaluated', nonlin is None, str(why)))
+    SYM = frozenset(['P', 'S'])
+    A, B_, P, S = (matnf.Mat.atom(x, SYM) for x in ('A', 'B', 'P', 'S'))
+    res.append(('M1 (A B)^T == B^T A^T', (A * B_).T().same(B_.T() * A.T()), ''))
+    res.append(('M1 A P A^T differs from A^T P A', not (A * P * A.T()).same(A.T() * P * A), ''))
+    res.append(('M1 S^-1 S == I and P^T == P', (S.inv() * S).same(matnf.Mat.ident(SYM)) and P.T().same(P), ''))
+    res.append(('M1 (S^-1 A P)^T S (S^-1 A P) == P A^T S^-1 A P', ((S.inv() * A * P).T() * S * (S.inv() * A * P)).same(
+        P * A.T() * S.inv() * A * P), ''))
+    d = {'kind': 'Fn', 'locals': ['()', '&std::vec::Vec<bool>', 'usize', '&bool', '&std::vec::Vec<u64>', '&u64',
+                                  '&mut std::vec::Vec<bool>', '&mut bool'],
+         'blocks': [
+             {'cleanup': False, 'st': [], 't': {'k': 'call', 'f': {'k': 'const', 'c': {'fn': 'std::ops::Index::index'}},
+                                                 'args': [{'k': 'move', 'pl': {'l': 1, 'p': []}}, {'k': 'move', 'pl': {'l': 2, 'p': []}}],
+                                                 'dest': {'l': 3, 'p': []}, 'target': 1}},
+             {'cleanup': False, 'st': [], 't': {'k': 'call', 'f': {'k': 'const', 'c': {'fn': 'std::ops::Index::index'}},
+                                                 'args': [{'k': 'move', 'pl': {'l': 4, 'p': []}}, {'k': 'move', 'pl': {'l': 2, 'p': []}}],
+                                                 'dest': {'l': 5, 'p': []}, 'target': 2}},
+             {'cleanup': False, 'st': [], 't': {'k': 'call', 'f': {'k': 'const', 'c': {'fn': 'std::ops::IndexMut::index_mut'}},
+                                                 'args': [{'k': 'move', 'pl': {'l': 6, 'p': []}}, {'k': 'move', 'pl': {'l': 2, 'p': []}}],
+                                                 'dest': {'l': 7, 'p': []}, 'target': 3}},
+             {'cleanup': False, 'st': [{'k': 'assign', 'lhs': {'l': 7, 'p': ['*']},
+                                        'rv': {'k': 'use', 'op': {'k': 'const', 'c': {'ty': 'bool', 'v': True}}}}],
+              't': {'k': 'return'}}]}
+    inliner.flags_as_set(d, mir.norm)
+    names = [mir.norm(blk['t']['f']['c']['fn']) for blk in d['blocks'][:3]]
+    res.append(('N4 flag vector reads / sets become set membership / insertion; other vectors are untouched',
+                names == ['std::collections::HashSet::contains', 'std::ops::Index::index',
+                          'std::collections::HashSet::insert'], str(names)))
     return res
 
 
